@@ -218,6 +218,18 @@ def run_case(case):
                 tdo = rng.random() < 0.06
                 if rng.random() < 0.08:
                     perturb_uniform(rng, m)
+                if rng.random() < 0.15:
+                    # a transition list is data: whatever numbers are written are recovered as written, also entries that address a descriptor the
+                    # owner could never bond to (such a molecule is not meant to be generated; parsing is what is checked here)
+                    e0 = rng.choice([e for e in m.elements if isinstance(e, StochAst)])
+                    dd = [d for d, kind, ti, a in e0.all_descs() if kind == "repeat"]
+                    d0 = rng.choice(dd)
+                    ndesc = len(e0.all_descs())
+                    if ndesc >= 2:
+                        d0.weight = [float(rng.choice([0, 0, 1, 2, 0.5, 3])) for _ in range(ndesc)]
+                        if sum(d0.weight) == 0:
+                            d0.weight[rng.randrange(ndesc)] = 1.0
+                        cnt["arbitrary_transition_lists"] += 1
                 if level == "stoch":
                     st = rng.choice([e for e in m.elements if isinstance(e, StochAst)])
                     text = st.to_text(True, sp, True)
